@@ -625,10 +625,18 @@ func (e *Env) trQuant(x *EQuant) (Term, Ty) {
 					sub = &n2
 					arr := "(sarr " + st.S + ")"
 					if os.Getenv("GOWP_NOQARR") == "" && g.sc.patternUnsafe(st.S) {
-						// a merged (ite) slice value cannot appear in a pattern: name its backing array
-						arr = g.constFor("qarr", Term{arr, SRef}).S
+						if mentionsBound(st.S) {
+							// the slice depends on a variable bound by an enclosing quantifier: it cannot be named
+							// outside; leave the pattern to the solver
+							arr = ""
+						} else {
+							// a merged (ite) slice value cannot appear in a pattern: name its backing array
+							arr = g.constFor("qarr", Term{arr, SRef}).S
+						}
 					}
-					autoPats = append(autoPats, "(Elem "+arr+" "+nm+")")
+					if arr != "" {
+						autoPats = append(autoPats, "(Elem "+arr+" "+nm+")")
+					}
 				}
 			}
 		}
@@ -1203,4 +1211,14 @@ func (e *Env) tryAddrOf(x Expr) (a string, t types.Type, ok bool) {
 	}()
 	a, t = e.addrOf(x)
 	return a, t, t != nil
+}
+
+// mentionsBound reports whether an SMT term mentions a quantifier-bound variable (they are all named q_<name>).
+func mentionsBound(t string) bool {
+	for _, tk := range strings.Fields(strings.NewReplacer("(", " ", ")", " ").Replace(t)) {
+		if strings.HasPrefix(tk, "q_") {
+			return true
+		}
+	}
+	return false
 }
